@@ -462,7 +462,7 @@ def run_gate(ctx: fw.Ctx) -> None:
                         n += 1
     ctx.count('gate_scenarios', 'exhaustive-2-kinds', n)
     # random: three kinds, partial settling (several items arrive before the loop runs), limits, second rounds
-    for _ in range(ctx.scale(150, 5000)):
+    for _ in range(ctx.scale(150, 2000)):
         nk = r.choice([2, 3, 3])
         spec = [(r.random() < 0.75, r.choice([0, 1, 2, 3]), r.choice([0, 1, 2])) for _ in range(nk)]
         kinds = mk_kinds(spec)
@@ -474,5 +474,5 @@ def run_gate(ctx: fw.Ctx) -> None:
             sc['rounds'] = [[0, 1], [2]]
             sc['round2_at'] = r.randrange(len(order))
         run_scenario(ctx, sc, cases)
-    ctx.count('gate_scenarios', 'random', ctx.scale(150, 5000))
+    ctx.count('gate_scenarios', 'random', ctx.scale(150, 2000))
     ctx.differential('gate_trace', GHEADER, cases, shard=60)
